@@ -7,6 +7,7 @@ import MitmVerif.Lemmas.C01_Fold
 import MitmVerif.Lemmas.C01_FoldG2
 import MitmVerif.Lemmas.C01_Lines
 import MitmVerif.Lemmas.C01_Raw
+import MitmVerif.Lemmas.C01_RawResp
 namespace MitmVerif.Props.C01
 open MitmVerif MitmVerif.C01
 
@@ -2111,6 +2112,101 @@ theorem raw_ambiguous_rejected (authOk : Bytes → Bytes → Bool) (buf : Bytes)
                   | error e => simp [hcb] at hamb; exact this _ _ _ _ _ (by rw [hcb, hamb])
                   | ok q => simp [hcb] at hamb
                 | eof => simp at hamb
+
+private theorem headLines_not_ambiguous : ∀ (f : Nat) (b : Bytes) (k : Nat), Ref.headLines f b ≠ .error (.ambiguous k) := by
+  intro f
+  induction f with
+  | zero => intro b k; simp [Ref.headLines]
+  | succ f ih =>
+    intro b k
+    simp only [Ref.headLines]
+    cases ht : Ref.takeLine b with
+    | none => simp
+    | some x =>
+      obtain ⟨res, r'⟩ := x
+      cases res with
+      | error e => simp
+      | ok l =>
+        simp only
+        split
+        · simp
+        · cases hr : Ref.headLines f r' with
+          | error e' => simp; intro he; exact ih r' k (by rw [hr, he])
+          | ok p => simp
+
+private theorem chunkedBody_not_ambiguous : ∀ (f : Nat) (b acc : Bytes) (tr : Bool) (k : Nat),
+    Ref.chunkedBody f b acc tr ≠ .error (.ambiguous k) := by
+  intro f
+  induction f with
+  | zero => intro b acc tr k; simp [Ref.chunkedBody]
+  | succ f ih =>
+    intro b acc tr k
+    simp only [Ref.chunkedBody]
+    repeat' split
+    all_goals first | (simp; done) | exact ih _ _ _ _
+
+/-- **raw_ambiguous_rejected_response**: the response side of `raw_ambiguous_rejected`, in the context of the request method:
+    if the strict reference reader finds the response at the front of the origin's byte stream ambiguous, what mitmproxy reads
+    from the same bytes (h11 `maybe_extract_lines`, `read_response_head`) is refused by `validate_headers` — 502, not relayed -/
+theorem raw_ambiguous_rejected_response (reqMethod : Bytes) (eof : Bool) (buf : Bytes) (c : Nat)
+    (hamb : Ref.parseResponse reqMethod eof buf = .error (.ambiguous c))
+    (ls : List Bytes) (rest : Bytes) (r : RespHead)
+    (hex : extractLines buf = .lines ls rest) (hread : readResponseHead ls = some r) :
+    validateHeaders (.response r.status) r.version r.reason r.fields = false := by
+  unfold Ref.parseResponse at hamb
+  cases hh : Ref.headLines (buf.length + 1) buf with
+  | error e => simp [hh] at hamb; subst hamb; exact absurd hh (headLines_not_ambiguous _ _ _)
+  | ok p =>
+    obtain ⟨lsR, restR⟩ := p
+    cases lsR with
+    | nil => simp [hh] at hamb
+    | cons l lsR' =>
+      obtain ⟨hext, hclean⟩ := extractLines_of_headLines _ buf l lsR' restR hh
+      rw [hext] at hex
+      simp at hex
+      obtain ⟨rfl, rfl⟩ := hex
+      simp only [hh] at hamb
+      cases hsl : Ref.statusLine l with
+      | none => simp [hsl] at hamb
+      | some vsr =>
+        obtain ⟨v, st, rsn⟩ := vsr
+        simp only [hsl] at hamb
+        unfold readResponseHead at hread
+        simp only at hread
+        cases hq : readResponseLine l with
+        | none => simp [hq] at hread
+        | some h =>
+          cases hf : readHeaders lsR' with
+          | none => simp [hq, hf] at hread
+          | some fs =>
+            simp [hq, hf] at hread
+            subst hread
+            obtain ⟨hver, hst⟩ := readResponseLine_of_statusLine hsl hq
+            simp only
+            rw [hver, hst]
+            apply lines_ambiguous_rejected (.response st) v h.reason reqMethod lsR' fs c (fun x hx => hclean x (by simp [hx])) hf
+            cases hfl : Ref.fields lsR' with
+            | error e =>
+              simp only [hfl] at hamb
+              left; simp at hamb; rw [hamb]
+            | ok fsR =>
+              simp only [hfl] at hamb
+              right
+              refine ⟨fsR, rfl, ?_⟩
+              cases hfr : Ref.framing fsR v (.response st) reqMethod with
+              | error e => simp only [hfr] at hamb; simp at hamb; rw [hamb]
+              | ok fr =>
+                simp only [hfr] at hamb
+                cases fr with
+                | none => simp at hamb
+                | cl n => simp at hamb; split at hamb <;> simp at hamb
+                | chunked =>
+                  simp at hamb
+                  exfalso
+                  cases hcb : Ref.chunkedBody (restR.length + 1) restR [] false with
+                  | error e => simp [hcb] at hamb; exact chunkedBody_not_ambiguous _ _ _ _ _ (by rw [hcb, hamb])
+                  | ok q => simp [hcb] at hamb
+                | eof => simp at hamb; split at hamb <;> simp at hamb
 
 /-- a folded field satisfying the hypotheses of the fold theorems: `X: a CRLF SP b` -/
 example : (⟨[88], [97], [[32, 98]]⟩ : PField).ok := by
